@@ -2176,11 +2176,14 @@ static program_t *epilog ()
       if (funflags & NAME_ALIAS)
         {
           int which = FUNCTION_ALIAS (i);
+          /* An alias of an inherited alias (nothing collided at this level) keeps
+           * its own runtime entry: it already leads to the same function, and it
+           * stays compressible. */
           if (!(FUNCTION_FLAGS (which) & NAME_INHERITED) || FUNCTION_ALIAS (which) >= 2)
-            {
-              *func = *FUNCTION_RENTRY (which);
-              FUNCTION_FLAGS (i) = FUNCTION_FLAGS (which) | NAME_ALIAS;
-            }
+            *func = *FUNCTION_RENTRY (which);
+          /* The flags always follow the aliased entry: apply_low() reads the
+           * visibility and varargs bits of whichever slot it lands on. */
+          FUNCTION_FLAGS (i) = FUNCTION_FLAGS (which) | NAME_ALIAS;
         }
     }
   generate_final_program (1);
